@@ -31,9 +31,7 @@ Section EqHDDMA.
     HDDMA1__update (h1_t c s) v = Ok (h1_t c (hddma_step c s v), tt).
   Proof.
     intros c [n x z y d w] v H2 (Hn & Hz & Hx & Hy). cbn in Hn, Hz, Hx, Hy.
-    unfold HDDMA1__update, HoeffdingOneSidedTest_set_initial_cut_mean, HoeffdingOneSidedTest_update_cut_point,
-      HoeffdingOneSidedTest_check_cases, HoeffdingOneSidedTest__check_mean_increase, HoeffdingOneSidedTest_reset,
-      Mean_update, Mean_init, h1_t, hcfg_t, hddma_step, side_cases, check_incr, check_decr, hoeff_thr, hoeff_bound,
+    autounfold with gensrc. unfold h1_t, hcfg_t, hddma_step, side_cases, check_incr, check_decr, hoeff_thr, hoeff_bound,
       mean_update, mean_init, incr_op, mean_t, one, zero.
     rewrite H2. cbn -[Z.mul].
     repeat (cbn -[Z.mul]; zdec); repeat (cbn -[Z.mul]; bdec); cbn -[Z.mul]; try reflexivity;
@@ -47,7 +45,7 @@ Section EqHDDMA.
     HoeffdingTwoSidedTest_set_initial_cut_mean (t2 ad aw x z y) =
       Ok (t2 ad aw (if (m_n x =? 0)%Z then z else x) z (if (m_n y =? 0)%Z then z else y), tt).
   Proof.
-    intros. unfold HoeffdingTwoSidedTest_set_initial_cut_mean, HoeffdingTwoSidedTest_super_HoeffdingOneSidedTest_set_initial_cut_mean, t2, mean_t.
+    intros. autounfold with gensrc. unfold t2, mean_t.
     cbn. destruct (m_n x =? 0)%Z; cbn; destruct (m_n y =? 0)%Z; reflexivity.
   Qed.
 
@@ -56,7 +54,7 @@ Section EqHDDMA.
       Ok (t2 ad aw (if leb (add (m_mean z) eps) (add (m_mean x) (hoeff_bound ad (m_n x))) then z else x) z
                    (if leb (sub (m_mean y) (hoeff_bound ad (m_n y))) (sub (m_mean z) eps) then z else y), tt).
   Proof.
-    intros. unfold HoeffdingTwoSidedTest_update_cut_point, HoeffdingTwoSidedTest_super_HoeffdingOneSidedTest_update_cut_point, t2, mean_t, hoeff_bound, one.
+    intros. autounfold with gensrc. unfold t2, mean_t, hoeff_bound, one.
     cbn -[Z.mul]. repeat (bdec; cbn -[Z.mul]); reflexivity.
   Qed.
 
@@ -67,8 +65,7 @@ Section EqHDDMA.
            let '(dd, wd) := side_cases (check_decr y z) (m_n y) (m_n z) c in (di || dd, wi || wd))))%Z.
   Proof.
     intros c x z y Hx Hz Hy.
-    unfold HoeffdingTwoSidedTest_check_cases, HoeffdingTwoSidedTest_super_HoeffdingOneSidedTest_check_cases,
-      HoeffdingTwoSidedTest__check_mean_increase, HoeffdingTwoSidedTest__check_mean_decrease, t2, mean_t,
+    autounfold with gensrc. unfold t2, mean_t,
       side_cases, check_incr, check_decr, hoeff_thr, one.
     assert (Ex : (2 * m_n x * m_n z =? 0)%Z = false) by (apply Z.eqb_neq; nia).
     assert (Ey : (2 * m_n y * m_n z =? 0)%Z = false) by (apply Z.eqb_neq; nia).
